@@ -80,6 +80,9 @@ func (c *appendCombineChecker) matchAppend(stmt ast.Stmt, slice ast.Expr) *ast.C
 	}
 
 	call, ok := assign.Rhs[0].(*ast.CallExpr)
+	if ok && len(call.Args) == 0 {
+		return nil // A user-defined append() without arguments
+	}
 	{
 		cond := ok &&
 			qualifiedName(call.Fun) == "append" &&
